@@ -99,7 +99,11 @@ def fam_ops(tier, seed):
     atoms = exprs[:11]
     d1 = exprs[11:11 + 55 + 242]
     deeper = exprs[11 + 55 + 242:]
-    chosen = list(atoms)
+    uu = []
+    for (on, of), (in_, if_) in itertools.product(UNARY, UNARY):
+        for an, af in (atoms[0], atoms[2], atoms[10], atoms[5]):
+            uu.append(("%s(%s_%s)" % (on, in_, an), (lambda of=of, if_=if_, af=af: of(if_(af())))))
+    chosen = list(atoms) + (uu if tier != "quick" else uu[::2] + uu[1::4])
     chosen += d1 if n_d1 >= len(d1) else (d1[:55] + rnd.sample(d1[55:], n_d1 - 55) if n_d1 > 55 else rnd.sample(d1, n_d1))
     rnd.shuffle(deeper)
     out = []
@@ -294,6 +298,11 @@ def fam_fields(tier, seed):
         ("same_field_thrice", lambda: Seq(Call("A", "x"), Opt(Call("A", "x")), Call("A", "x"))),
         ("boxed_mixed", lambda: Choice(Call("A", "x", boxed=True), Seq(Call("B", "x"), Call("A", "x")))),
         ("lookahead_then_field", lambda: Seq(Pos(Call("A")), Call("A", "x"), Neg(Call("A")))),
+        ("choice_fields_reordered", lambda: Choice(Seq(Lit("c"), Call("D", "x")), Seq(Call("T", "y"), Lit("c")),
+                                                   Seq(Call("A", "z"), Call("T", "y"), Call("D", "x")),
+                                                   Seq(Call("B", "w"), Call("D", "x"), Call("A", "z")))),
+        ("choice_lists_reordered", lambda: Choice(Seq(Clo(Call("D", "x")), Lit("c"), Clo(Call("T", "y"))),
+                                                  Seq(Lit("c"), Lit("c"), Clo(Call("T", "y")), Lit("c"), Clo(Call("D", "x"))))),
         ("nested_clo_order", lambda: Clo(Seq(Lit("c"), Clo(Call("D", "x"))))),
         ("nested_clo_two_fields", lambda: Clo(Seq(Call("D", "y"), Lit("c"), Clo(Call("D", "x"))))),
         ("clo_opt_extra_value", lambda: Clo(Seq(Call("D", "x"), Opt(Seq(Lit("c"), Call("D", "x"))), Lit("c")))),
@@ -737,6 +746,8 @@ def fam_inc(tier, seed):
         Rule("I6", Seq(Lit("a"), Lit("b")), no_skip_ws=True),
         Rule("I7", Seq(Lit("a"), Lit("b")), checks=[{"o": "never", "path": "verif_common::oracles::chk_never",
                                                    "name": "verif_common::oracles::chk_never"}]),
+        Rule("I8", Seq(Call("A", "x"), Clo(Seq(Lit(","), Call("B", "rest")))), string=True),
+        Rule("I9", Choice(Seq(Lit("("), Call("I9", "inner", boxed=True), Lit(")")), Call("A", "x"))),
         Rule("Pair", Seq(Call("A", "x"), Lit(","), Call("A", "y")), no_skip_ws=True),
         Rule("PairK", Seq(Call("A", "x"), Lit(","), Call("A", "y"))),
         Rule("New", Inc("Pair")),
@@ -758,6 +769,10 @@ def fam_inc(tier, seed):
         ("fieldless_in_clo", Seq(Clo(Seq(Inc("I6"), Lit(","))), Clo(Inc("I5")))),
         ("fieldless_in_choice", Choice(Seq(Inc("I6"), Lit(",")), Seq(Inc("I5"), Lit("(")), Inc("I6"))),
         ("fieldless_with_check", Seq(Inc("I7"), Opt(Seq(Lit(","), Inc("I7"))))),
+        ("include_string_rule_with_fields", Seq(Inc("I8"), Opt(Seq(Lit("("), Inc("I8"), Lit(")"))))),
+        ("include_string_rule_in_clo", Clo(Seq(Lit("("), Inc("I8"), Lit(")")))),
+        ("include_boxed_self", Seq(Inc("I9"), Opt(Lit(",")))),
+        ("include_boxed_self_nested", Seq(Lit("("), Opt(Inc("I9")), Lit(")"), Clo(Inc("I9")))),
         ("sole_include_noskip_target", Seq(Call("New", "n"), Opt(Call("New", "m")))),
         ("sole_include_skip_target", Seq(Call("NewN", "n"), Opt(Call("NewN", "m")))),
     ]
@@ -880,6 +895,8 @@ def fam_user(tier, seed):
         user_rs = []
         import copy
         rules = copy.deepcopy(rules)
+        if name.startswith("ext_") and rules[0].kind == "rule" and not rules[0].checks:
+            rules[0].position = True     # byte offsets after an extern match are observable in the root's range
         for r in rules:
             for c in getattr(r, "checks", []):
                 if c["path"].startswith("@"):
